@@ -14,7 +14,7 @@ from vf.sim.drive import SCase, outcome_maps, point_maps, run_async
 
 PROP_ID = 'C19'
 LEVEL = 'exploration'
-BUDGET = {'quick': 480, 'thorough': 12000}
+BUDGET = {'quick': 400, 'thorough': 12000}
 MANIFEST = {
     'engine': 'S',
     'technique': 'PBT on the stepped scheduler: real stop (clean / --now) '
